@@ -75,6 +75,22 @@ Definition d_comp (s : sexp) : comp :=
 Definition e_outcome (o : outcome) : sexp :=
   match o with Returned => L [A 0%Z] | Raised e => L [A 1%Z; e_N (e_id e)] | Crashed => L [A 2%Z] end.
 
+(* scanner state: (text filename? lineno pos)   aux context: (filename? lineno? line?) *)
+Definition d_scanner (s : sexp) : scanner :=
+  mkScanner (d_str (d_nth s 0)) (d_opt d_str (d_nth s 1)) (d_Z (d_nth s 2)) (d_Z (d_nth s 3)).
+Definition d_auxctx (s : sexp) : auxctx :=
+  mkAuxctx (d_opt d_str (d_nth s 0)) (d_opt d_Z (d_nth s 1)) (d_opt d_str (d_nth s 2)).
+(* constructor calls: (0 msg fname) (1 etype msg sc) (2 sc) (3 desc sc) (4 desc sc start?) (5 msg auxctx) *)
+Definition d_construct (s : sexp) : err :=
+  match d_Z (d_nth s 0) with
+  | 0%Z => new_pybtex_error 0 (d_str (d_nth s 1)) (d_fname (d_nth s 2))
+  | 1%Z => new_syntax_error 0 (d_str (d_nth s 1)) (d_str (d_nth s 2)) (d_scanner (d_nth s 3))
+  | 2%Z => new_premature_eof 0 (d_scanner (d_nth s 1))
+  | 3%Z => new_token_required 0 (d_str (d_nth s 1)) (d_scanner (d_nth s 2))
+  | 4%Z => new_token_required_bib 0 (d_str (d_nth s 1)) (d_scanner (d_nth s 2)) (d_opt d_Z (d_nth s 3))
+  | _ => new_aux_error 0 (d_str (d_nth s 1)) (d_auxctx (d_nth s 2))
+  end.
+
 Definition start (strict : bool) (code : Z) : G := mkG strict code None [] [].
 
 Definition dispatch (fn : Z) (a : sexp) : sexp :=
@@ -100,8 +116,20 @@ Definition dispatch (fn : Z) (a : sexp) : sexp :=
   | 7%Z =>
     match scanner_required (d_str (d_nth a 0)) (d_str (d_nth a 1)) (d_fname (d_nth a 2)) 0 with
     | inl tok => L [A 0%Z; e_str tok]
-    | inr e => L [A 1%Z; enc_kind (e_kind e); enc_ctx (e_ctx e); e_str (e_msg e); e_res e_str (format_error e k_error)]
+    | inr e =>
+      (* what a user can observe of the error: lineno, get_context(), format_error *)
+      L [A 1%Z;
+         e_opt e_Z (match e_kind e with SSyntax _ l => l | SAux l => l | SPlain => None end);
+         e_res (e_opt e_str) (err_context e);
+         e_res e_str (format_error e k_error)]
     end
+  | 13%Z =>
+    let e := d_construct a in
+    L [L [A 0%Z; e_str (err_str e)];
+       e_res (e_opt e_str) (err_context e);
+       e_res e_str (format_error e k_error);
+       e_opt e_Z (match e_kind e with SSyntax _ l => l | _ => None end);   (* the public lineno attribute *)
+       e_res (e_opt e_str) (err_filename e)]
   | 8%Z => e_list e_str (splitlines (d_bool (d_nth a 0)) (d_str (d_nth a 1)))
   | 9%Z => e_str (Z_to_str (d_Z a))
   | _ => L []
